@@ -90,7 +90,8 @@ def scenarios(tier, seed):
                     if tier == "quick" and variant != (len(struct) + len(op)) % 3:
                         continue
                     out.append(dict(family=f"jpd/{op}/{struct}", mode="jpd", card=card, struct=struct, op=op, variant=variant, hashseed=k % 2,
-                                    budget_s=25 if tier == "quick" else 200, max_paths=300))
+                                    budget_s=25 if tier == "quick" else 200, max_paths=300,
+                                    vars=[["X", "Y", "Z"], ["x1", "x10", "x2"], ["Gr", "G", "rG"]][k % 3]))
     return out
 
 
@@ -259,7 +260,10 @@ def run_closure(desc, M):
         if extra_in and known is None and not extra and not missing:
             t = extra_in[0]
             a, b = tuple(t[0])
-            ind.add_assertions([sorted(a), sorted(b), sorted(t[1])])
+            if len(inputs) % 2:
+                ind.add_assertions(IndependenceAssertion(sorted(a), sorted(b), sorted(t[1])))   # the object form of add_assertions
+            else:
+                ind.add_assertions([sorted(a), sorted(b), sorted(t[1])])
             want2, nq3 = closure_oracle(V, inputs + [t])
             M.n_obl += nq3
             M.n_solver += nq3
@@ -390,6 +394,8 @@ def run_jpd(desc, M):
     from pgmpy.factors.discrete import JointProbabilityDistribution as JPD
     from pgmpy.factors.discrete import TabularCPD
     from pgmpy.models import BayesianNetwork
+    global VARS
+    VARS = list(desc.get("vars", ["X", "Y", "Z"]))   # names where one is a substring of another are part of the rotation
     card = desc["card"]
     M.declare(jpd_names(desc))
     J = jpd_tables(desc, M)
@@ -414,7 +420,7 @@ def run_jpd(desc, M):
         # context form: event3 = [(variable, state)] conditions on a VALUE; afterwards the object must answer as before
         cz = card[2]
         for zs in range(cz):
-            got_ctx = jpd.check_independence(["X"], ["Y"], [("Z", zs)])
+            got_ctx = jpd.check_independence([VARS[0]], [VARS[1]], [(VARS[2], zs)])
             res = []
             for sx in range(card[0]):
                 for sy in range(card[1]):
@@ -434,7 +440,7 @@ def run_jpd(desc, M):
                     M.check(any(abs(float(r)) > 0 for r, _ in res), "reported context dependence means some product differs")
             M.check(list(jpd.variables) == vars_ and all(a is b or (not M.symbolic and a == b) for a, b in zip(jpd.values.ravel(), snap)),
                     "a context query leaves the distribution object unchanged", detail=f"variables now {jpd.variables}")
-        got_after = jpd.check_independence(["X"], ["Y"], ["Z"], condition_random_variable=True)
+        got_after = jpd.check_independence([VARS[0]], [VARS[1]], [VARS[2]], condition_random_variable=True)
         check_ci(M, J, card, 0, 1, [2], bool(got_after), "check_independence after a context query")
     elif op == "get_independencies":
         ind = jpd.get_independencies()
@@ -442,7 +448,7 @@ def run_jpd(desc, M):
         for a, b in itertools.combinations(range(3), 2):
             check_ci(M, J, card, a, b, [], frozenset((VARS[a], VARS[b])) in got, f"get_independencies {VARS[a]},{VARS[b]}")
     elif op == "minimal_imap":
-        ordr = [["X", "Y", "Z"], ["Z", "X", "Y"], ["Y", "Z", "X"]][desc["variant"]]
+        ordr = [[VARS[0], VARS[1], VARS[2]], [VARS[2], VARS[0], VARS[1]], [VARS[1], VARS[2], VARS[0]]][desc["variant"]]
         G = jpd.minimal_imap(ordr)
         # returned graph must only encode independencies that hold: v _|_ (predecessors - parents) | parents
         for i, v in enumerate(ordr):
@@ -463,15 +469,15 @@ def run_jpd(desc, M):
                          f"minimal_imap(order={ordr}): encoded independence {v} _|_ {w} | {pa}", key=known)
     elif op == "is_imap":
         # product-form BN built from the same symbols: X -> Z -> Y factorisation of J when struct == chain, else a wrong/right candidate
-        bn = BayesianNetwork([("X", "Z"), ("Z", "Y")])
+        bn = BayesianNetwork([(VARS[0], VARS[2]), (VARS[2], VARS[1])])
         cx, cy, cz = card
         px = [marg(J, card, None, {0: x}) for x in range(cx)]
         pzx = [[marg(J, card, None, {0: x, 2: z}) / px[x] for x in range(cx)] for z in range(cz)]
         pz = [marg(J, card, None, {2: z}) for z in range(cz)]
         pyz = [[marg(J, card, None, {1: y, 2: z}) / pz[z] for z in range(cz)] for y in range(cy)]
-        bn.add_cpds(TabularCPD("X", cx, [[M.impl(p)] for p in px]),
-                    TabularCPD("Z", cz, M.impl_table(pzx), evidence=["X"], evidence_card=[cx]),
-                    TabularCPD("Y", cy, M.impl_table(pyz), evidence=["Z"], evidence_card=[cz]))
+        bn.add_cpds(TabularCPD(VARS[0], cx, [[M.impl(p)] for p in px]),
+                    TabularCPD(VARS[2], cz, M.impl_table(pzx), evidence=[VARS[0]], evidence_card=[cx]),
+                    TabularCPD(VARS[1], cy, M.impl_table(pyz), evidence=[VARS[2]], evidence_card=[cz]))
         got = jpd.is_imap(bn)
         # the chain factorisation reproduces J iff X _|_ Y | Z
         check_ci(M, J, card, 0, 1, [2], bool(got), "is_imap(X->Z->Y)")
